@@ -369,7 +369,7 @@ glyphLoop:
 				if err != nil {
 					return nil, err
 				}
-				if len(stack) < argN+2 {
+				if argN < 0 || len(stack) < argN+2 {
 					return nil, errIncomplete
 				}
 				// fmt.Println("callothersubr", idx, args)
@@ -397,6 +397,9 @@ glyphLoop:
 				switch idx {
 				case 0: // flex end (3 args, 2 returns)
 					inFlex = false
+					if len(postscriptStack) < 1 {
+						return nil, errIncomplete
+					}
 					if len(flexData) == 14 {
 						res.Cmds = append(res.Cmds, GlyphOp{
 							Op: OpCurveTo,
